@@ -212,11 +212,59 @@ def oracle(case, obs):
     return fails
 
 
+STEP_PROBES = {"C": ["fs_vault.insert_secret.row_appended", "fs_log.append.written"],
+               "U": ["fs_vault.splice.truncated", "fs_vault.splice.row_written", "fs_vault.splice.tail_written", "fs_log.append.written"],
+               "D": ["fs_vault.splice.truncated", "fs_vault.splice.tail_written", "fs_log.append.written"]}
+
+
+def step_view(case, obs):
+    """for a create / update / delete of one secret on the file-system backend: the folder, the event the operation
+    appended, the stored rows before it, and the stored rows observed at every probe image of that folder's files"""
+    toks = case.split()
+    kv = dict(x.split("=", 1) for x in toks[2:] if "=" in x)
+    hist = [x for x in kv.get("hist", "").split("|") if x]
+    if kv.get("cbe") != "fs" or not hist or hist[-1][:1] not in "cux":
+        return None
+    ev, rows, probe_of = {}, {}, {}
+    for o in obs:
+        t = o.split()
+        if not t: continue
+        if t[0] == "img":
+            d = dict(x.split("=", 1) for x in t[1:] if "=" in x)
+            if d.get("side") == "dev": probe_of[d["k"]] = d.get("probe")
+        elif t[0] == "!rec" and len(t) >= 6 and t[2] == "side=dev" and t[4] in ("events", "rows"):
+            k = t[1][2:]
+            (ev if t[4] == "events" else rows).setdefault(k, {})[t[5]] = t[6].split(",") if len(t) > 6 else []
+    ks = sorted(ev, key=int)
+    if len(ks) < 2: return None
+    first, last = ks[0], ks[-1]
+    target = None
+    for f in ev[last]:
+        a, b = ev[first].get(f), ev[last][f]
+        if a is not None and len(b) == len(a) + 1 and b[:len(a)] == a and b[-1][:1] in "CUD":
+            target = (f, b[-1]); break
+    if target is None: return None
+    f, event = target
+    parts = event.split(":", 2)
+    observed = []
+    for k in ks[1:]:
+        p = probe_of.get(k)
+        if p in STEP_PROBES[parts[0]] and f in rows.get(k, {}):
+            observed.append((p, rows[k][f]))
+    return {"folder": f, "op": parts[0], "sid": parts[1], "body": parts[2] if len(parts) > 2 else "-",
+            "before": rows.get(first, {}).get(f, []), "observed": observed}
+
+
 def model_input(cases, impl):
     out = []
     for c in cases:
         cid = c.split()[1]
         n = 0
+        sv = step_view(c, impl.get(cid, []))
+        if sv and sv["before"] is not None:
+            out.append("%s %s steps op=%s sid=%s body=%s folder=%s before=%s" % (
+                SUB, cid, sv["op"], sv["sid"], sv["body"], sv["folder"], ",".join(sv["before"])))
+            n += 1
         for o in impl.get(cid, []):
             t = o.split()
             if t and t[0] == "!tornlog":
@@ -228,7 +276,23 @@ def model_input(cases, impl):
     return out
 
 
-def impl_projection(obs):
+PROJECTION_TAKES_CASE = True
+
+
+def impl_projection(obs, case=None):
+    steps = []
+    if case is not None:
+        sv = step_view(case, obs)
+        if sv and sv["before"] is not None:
+            # one line per model step: the stored rows at the image taken at that step's probe
+            seen = {}
+            for p, r in sv["observed"]:
+                seen.setdefault(p, r)
+            cur = sv["before"]
+            for p in STEP_PROBES[sv["op"]]:
+                # a probe at which nothing changed on disk yields no image of its own: the state is the previous one
+                cur = seen.get(p, cur)
+                steps.append("rows %s %s %s" % (sv["folder"], p, ",".join(cur)))
     have = set()
     for o in obs:
         t = o.split()
@@ -244,7 +308,7 @@ def impl_projection(obs):
                 out.append("torn k=%s side=%s file=%s light=%s" % (kv["k"], kv["side"], kv["file"], kv["light"]))
         elif t and t[0] == "dirs":
             out.append(o)
-    return out + coarse_steps(obs)
+    return steps + out + coarse_steps(obs)
 
 
 def nontrivial(case, obs):
